@@ -201,3 +201,8 @@ def check(ctx):
             ctx.ob("R-PAIR", PL, "poll/popped-event-dispatched", not bad, "every event popped by poll goes through continue_bottom (Normal) or check_panic (Done) before poll pops again, parks or returns" if not bad else
                    "poll can pop an event and go on without running its bottom half / joining its selector: the event is consumed (dropped) although its bottom half never ran", f.where(bad[0]) if bad else f.where(sorted(pops)[0]))
     ctx.import_rules("C02", r"^atomic-option/")
+    # an event that was queued is consumed with its bottom half: once the select coroutine is resumed by continue_bottom nothing may stop it
+    # before the bottom half - EventSender::yield_back (which runs on that resume) is not a cancellation point (seed C16-8)
+    ctx.never("<may::cqueue::EventSender as may::coroutine_impl::EventSource>::yield_back", Call(r"may::cancel::CancelImpl::check_cancel|may::cancel::trigger_cancel_panic"),
+              "yield-back/not-a-cancellation-point", "EventSender::yield_back never raises the Cancel panic: a cancel that landed after the event was queued must not skip the bottom half of an event "
+              "that poll (or the final drain) has already consumed")
